@@ -2,6 +2,7 @@
 """tools/seed_prompt.py <id> <n> : prompt text for a seeding sub-agent (property text only, nothing from /verif)"""
 import json, sys
 pid, n = sys.argv[1], int(sys.argv[2])
+ROUND2 = len(sys.argv) > 3 and sys.argv[3] == "round2"
 d = next(json.loads(l) for l in open("/verif/properties.jsonl") if json.loads(l)["id"] == pid)
 files = ", ".join(d["anchors"]["files"])
 tests = {"C05": "vectorizers/tests/test_common.py -k \"token or ngram or prune or dictionary\"",
@@ -35,7 +36,7 @@ The code involved lives (mostly) in: {files}
 
 YOUR TASK: produce {n} different, independent source changes (mutations) to the library, each of which BREAKS this property while the library still imports/compiles and the relevant existing tests still pass. Each change should be realistic (the kind of slip a maintainer could make in a refactor or an "optimisation": an off-by-one, a dropped branch or argument, a wrong variable, a changed comparison, a reordering, a missing update of bookkeeping, a narrower dtype, two sites that each look fine alone) and SUBTLE: it must need something specific to manifest — an unusual input, a particular parameter combination, a particular size/threshold, a multi-step sequence of calls, a particular batch composition — not something any ordinary use would expose at once. Make the changes differ in which clause of the property they break and in where in the code they are.
 
-For each mutation i = 1..{n} deliver, under /tmp/seed/{pid}_out/m<i>/:
+{("This is a SECOND round: an earlier round already produced the obvious single-site slips (off-by-one, dropped argument, changed comparison, dropped copy). Go for different kinds now: two cooperating sites that each look fine alone; state carried from one call to a later call (history-dependent); behaviour that depends on which internal path a size / threshold / dtype selects; error paths and what is left behind after an exception; interaction of two parameters; narrowing of an integer or float type; reuse of a cached / shared object. " if ROUND2 else "")}For each mutation i = {("4..5" if ROUND2 else "1.."+str(n))} deliver, under /tmp/seed/{pid}_out/m<i>/{(" (name the two directories m4 and m5)" if ROUND2 else "")}:
  - patch.diff : `git diff` of the change against the worktree's HEAD (apply-able with `git apply` at the repo root); make each mutation separately from a clean tree (`git checkout -- .` between them);
  - demo.py : a small standalone program (public API or module functions only) that exits 0 and prints PASS on the unmodified tree and exits 1 / prints FAIL with the mutation applied, demonstrating the property violation (say in a comment which clause is violated);
  - notes.md : what the change is, why the existing tests don't notice, and what specific input/sequence/configuration is needed for it to manifest.
